@@ -97,7 +97,12 @@ def build_problem(spec):
     from thejoker.samples import JokerSamples
 
     du = u.Unit(spec["data_unit"])
-    srcs = [RVData(np.array(s["t"]), np.array(s["rv"]) * du, np.array(s["err"]) * du) for s in spec["surveys"]]
+    kw = {}
+    if spec.get("t_ref") is not None and spec["n_off"] == 0:  # explicit reference epoch (single source only: the merge re-derives it)
+        from astropy.time import Time
+
+        kw["t_ref"] = Time(float(spec["t_ref"]), format="mjd", scale="tcb")
+    srcs = [RVData(np.array(s["t"]), np.array(s["rv"]) * du, np.array(s["err"]) * du, **kw) for s in spec["surveys"]]
     data = srcs[0] if spec["n_off"] == 0 else srcs
     with warnings.catch_warnings():
         warnings.simplefilter("ignore")
